@@ -20,8 +20,8 @@ from curies import NamableReference, NamedReference, Reference, ReferenceTuple  
 from curies.triples import Triple, read_triples, write_triples  # noqa: E402
 from pydantic import ValidationError  # noqa: E402
 
-PREFIXES = ["a", "", "é", "a b", "A", "a.b", "a1"]
-IDENTIFIERS = ["", "1", "x:y", ":", "\t", '"', "\n", "\r", "é", " s ", "0:"]
+PREFIXES = ["a", "", "é", "a b", "A", "a.b", "a1", "http", "[a"]
+IDENTIFIERS = ["", "1", "x:y", ":", "\t", '"', "\n", "\r", "é", " s ", "0:", "//e.org/1", "b]"]
 NAMES = [None, "N", "M"]
 CLASSES = {"ReferenceTuple": ReferenceTuple, "Reference": Reference, "NamableReference": NamableReference, "NamedReference": NamedReference}
 _TMP = None
@@ -352,9 +352,57 @@ def check_files(idx_a):
     return fails, n
 
 
+def sweep_specs():
+    """Breadth sweep (mc/sweeps.py): every token inside and as the whole of the prefix / identifier / name, for each class."""
+    from .. import sweeps
+
+    out = []
+    for t in sweeps.TOKENS:
+        tp = "" if ":" in t else t
+        for cls in CLASSES:
+            n = None if cls in ("ReferenceTuple", "Reference") else "n" + t
+            out.append((cls, "p" + tp, "i" + t, n))
+            out.append((cls, tp, t, n))
+            out.append((cls, "p", t + ":" + t, n))
+    return out
+
+
+def check_file_refs(pairs):
+    """write_triples / read_triples on triples built from the given (prefix, identifier) pairs: one file per triple, one with all."""
+    fails = []
+    refs = [Reference(prefix=p, identifier=i) for p, i in pairs]
+    triples = [Triple(subject=a, predicate=b, object=c) for a in refs for b in refs[:2] for c in refs]
+    for ext in ("tsv", "tsv.gz"):
+        path = os.path.join(tmpdir(), f"{os.getpid()}.s.{ext}")
+        for batch in [[t] for t in triples[: len(refs) * 2]] + [triples]:
+            try:
+                write_triples(batch, path)
+                back = read_triples(path)
+            except Exception as e:  # noqa
+                fails.append((f"triples-file-round-trip-raises/{ext}", f"{[(t.subject.pair, t.predicate.pair, t.object.pair) for t in batch][:1]}: {type(e).__name__}: {str(e)[:80]}"))
+                break
+            if back != batch:
+                bad = next((x for x, y in zip(batch, back) if x != y), batch[0])
+                fails.append((f"triples-file-round-trip-differs/{ext}", f"{len(batch)} triple(s): wrote {(bad.subject.pair, bad.predicate.pair, bad.object.pair)!r}, read back {len(back)} triple(s) {[(t.subject.pair, t.predicate.pair, t.object.pair) for t in back][:1]!r}"))
+                break
+    return fails
+
+
+def sweep_file_refs():
+    from .. import sweeps
+
+    out = []
+    for t in sweeps.TOKENS:
+        tp = "" if ":" in t else t
+        out.append([("p" + tp, "i" + t), (tp, t), ("a", t + "1" + t)])
+    return out
+
+
 def units(tier, seed):
     S = specs()
     us = [{"kind": "objects"}, {"kind": "unparsable"}, {"kind": "context"}]
+    us += [{"kind": "sweep-objects", "part": i, "of": 4} for i in range(4)]
+    us += [{"kind": "sweep-files", "part": i, "of": 8} for i in range(8)]
     us += [{"kind": "pairs", "first": ch} for ch in chunks(list(range(len(S))), 48)]
     refs = [i for i, s in enumerate(S) if s[0] == "Reference"]
     us += [{"kind": "order", "first": ch} for ch in chunks(refs, 24)]
@@ -381,6 +429,22 @@ def run_unit(unit, ctx):
                 ctx.count("validated")
             rep(f, {"kind": "object", "spec": list(s)})
         ctx.sample({"kind": "object", "spec": list(S[37])})
+    elif k == "sweep-objects":
+        for i, sp in enumerate(sweep_specs()):
+            if i % unit["of"] != unit["part"]:
+                continue
+            f = check_object(sp)
+            ctx.count("evaluations", 8)
+            ctx.count("sweep_objects")
+            rep(f, {"kind": "object", "spec": list(sp)})
+    elif k == "sweep-files":
+        for i, pairs in enumerate(sweep_file_refs()):
+            if i % unit["of"] != unit["part"]:
+                continue
+            f = check_file_refs(pairs)
+            ctx.count("evaluations", 2 * (len(pairs) * 2 + 1))
+            ctx.count("sweep_file_round_trips")
+            rep(f, {"kind": "file-refs", "pairs": [list(x) for x in pairs]})
     elif k == "unparsable":
         f = check_unparsable()
         ctx.count("evaluations", 80)
@@ -440,6 +504,8 @@ def replay(case):
         f = check_pair(tuple(case["a"]), tuple(case["b"]))
     elif k == "order":
         f = check_order_triple(tuple(case["a"]), tuple(case["b"]), tuple(case["c"]))
+    elif k == "file-refs":
+        f = check_file_refs([tuple(x) for x in case["pairs"]])
     else:
         f = check_files(case["a"])[0]
     return [("C15/" + s, m) for s, m in f]
